@@ -15,6 +15,12 @@ def index_list(rng, T, present):
     kind = rng.choice(["interior", "interior", "zero", "last", "beyond", "dup", "empty", "unsorted", "mixed", "repeat"])
     T = max(T, 1)
     inner = list(range(1, max(2, T - 1)))
+    if T > 100 and rng.random() < 0.5:
+        # many steps in one call (65 and more), on the long logs
+        out = rng.sample(inner, min(len(inner), rng.randint(65, 130)))
+        if rng.random() < 0.5:
+            out.sort()
+        return out
     if kind == "interior":
         return rng.sample(inner, min(len(inner), rng.randint(1, 3)))
     if kind == "zero":
@@ -40,6 +46,8 @@ def index_list(rng, T, present):
 def make_case(prop, seed, i, tier):
     rng = rng_for(prop, seed, i)
     spec = G.gen_random(rng, G.profile(facility_rich=rng.random() < 0.4, ensure_worker=0.9, max_time=50))
+    if rng.random() < 0.07:
+        spec = G.gen_scale(rng, rng.choice(["long", "long", "many_resources", "wide", "many_components"]))   # long logs / many objects
     if rng.random() < 0.5:
         spec["sim"]["absence"] = []
     sub = None
